@@ -10,6 +10,16 @@
 // choice), field-2 codes single, empty slots carry 80 80.  One frame = one
 // vbi_decode() with both lines, timestamps +33.4 ms.
 //
+// Two further dimensions of the history (added after seeded change C08-m6 was missed: field-2 text received before the first
+// field-2 mode command was written into CC1; every run used to open each field with a resume code):
+//  * "joined mid-stream" (op join + a caption tail): the decoder comes into being while the channels of a field are in the
+//    middle of a transmission; the first sender of that field does not repeat its resume code, so the field begins with
+//    characters / PACs / mid-row codes / ... that belong to no known channel, while the other field is being captioned.
+//  * "channel switch" (op chsw): vbi_channel_switched() between two frames; reference = a new decoder; all channels go on
+//    with their scripts mid-stream.
+// Such data must not appear on any channel of the other field (strict, nothing new in the oracle: page comparison and
+// cross-talk clause); on the channels of the same field the oracle is lenient (RefDecoder::orphan).
+//
 // Oracle: RefDecoder below, my own EIA-608 / 47 CFR 15.119 decoder model that
 // consumes the very same byte pairs (it is NOT derived from caption.c).  The
 // page fetched with vbi_fetch_cc_page() is compared with the model's displayed
@@ -182,8 +192,10 @@ struct RefDecoder {
   // (DESIGN.md C08 soft spot (ii): "characters received before any mode command: ignored or shown"): the four channels of
   // field f are marked - memories unknown until erased by a command (EDM+ENM, a style change that erases, TR), pen
   // attributes unknown until set (PAC / colour code), cursor unknown until a PAC (encoder guard need_pac).
+  bool orphan_strict = false;  // knob orphan_strict=1 (never generated): no leniency, the model's "discarded" is demanded on the same field too
   void orphan(int f) {
     cnt("ref_orphan_pair");
+    if (orphan_strict) return;
     for (int k = 0; k < 4; k++) {
       Chan& c = ch[(k & 2 ? 4 : 0) + f * 2 + (k & 1)];
       c.unk[0] = c.unk[1] = true;
@@ -575,6 +587,8 @@ struct C08 : World {
     Rng rj(seed, "join");
     int joined = rj.chance(3, 10) ? 1 + (int)rj.below(3) : 0;
     if (const char* e = getenv("C08_JOIN")) joined = atoi(e) & 3;  // development aid
+    if (getenv("C08_CHSW_STRICT")) p.knobs["chsw_strict"] = 1;       // development aid (the generator never sets this knob otherwise)
+    if (getenv("C08_ORPHAN_STRICT")) p.knobs["orphan_strict"] = 1;   // development aid (the generator never sets this knob otherwise)
     if (joined) {
       for (int f = 0; f < 2; f++) {
         bool have = false; for (int x : chans) if (((x >> 1) & 1) == f) have = true;
@@ -595,6 +609,17 @@ struct C08 : World {
     for (int t : chans) {
       int ncap = (1 + (int)r.below(4)) * scale;
       for (int k = 0; k < ncap; k++) gen_caption(r, p, t, feat);
+    }
+    // Workload dimension "channel switch": vbi_channel_switched() somewhere in the middle of the transmissions ("to reset
+    // the decoding context ... includes deletion of all cached Teletext and Closed Caption pages", executed when "the next
+    // frame is about to be decoded").  Afterwards the decoder is in the position of a new decoder joining all channels
+    // mid-stream: every channel continues its script where it was, the first sender of each field without a resume code.
+    if (rj.chance(1, 6) && !p.ops.empty()) {
+      int n = 1 + (int)rj.below(2);
+      for (int i = 0; i < n; i++) {
+        size_t at = (size_t)rj.below(p.ops.size());
+        p.ops.insert(p.ops.begin() + (long)at, mk(p.ops[at].task, "chsw", {}));
+      }
     }
     return p;
   }
@@ -628,6 +653,7 @@ struct C08 : World {
     std::set<int> compared_chans;
     int lines[2] = {21, 284};
     unsigned sliced_id = VBI_SLICED_CAPTION_525;
+    bool chsw_strict = false;
   };
   static St* g;
 
@@ -806,6 +832,45 @@ struct C08 : World {
     }
   }
 
+  // vbi_channel_switched() between two frames.  Documented (vbi.c): "reset the decoding context ... This includes deletion of
+  // all cached Teletext and Closed Caption pages.  ... the reset is not executed until the next frame is about to be decoded".
+  // Reference: a new decoder (all memories empty, no style, no channel selected on either field).  The repetition window of
+  // the line-21 signal (RefDecoder::last, armedA/B) is a property of the signal and continues.  The statement's event clause
+  // is about changes brought about by caption data; that the pages go blank here without an event is not judged.
+  static void channel_switch() {
+    St& s = *g;
+    if (s.ctx->failed) return;
+    if (s.full[0] || s.full[1]) flush();  // what was sent before the switch is decoded before it
+    if (s.ctx->failed) return;
+    RefDecoder fresh;
+    for (int i = 0; i < 8; i++) s.ref.ch[i] = fresh.ch[i];
+    s.ref.cur[0] = s.ref.cur[1] = -1;
+    // LENIENCY chsw-pen (knob chsw_strict=0, the generator's value): underline / italic / flash of characters written after
+    // the switch without a PAC or colour code first are not compared.  vbi_caption_channel_switched() resets colour and
+    // opacity of the pen but not these three (reported as a suspected defect with chsw_strict=1 replay); neither the
+    // statement nor the documentation of vbi_channel_switched() names the pen.
+    if (!s.chsw_strict) for (int i = 0; i < 8; i++) s.ref.ch[i].pen.adc = true;
+    for (int i = 0; i < 8; i++) { s.have_proj[i] = false; s.ev_at_sync[i] = s.ev[i]; }
+    for (int f = 0; f < 2; f++) { s.eff[f] = s.eff_prev[f] = Effect(); s.cur_before[f] = -1; s.suppress[f] = false; }
+    s.ctx->log("channel switch");
+    s.ctx->count("sched_channel_switch");
+    budget_begin("vbi_channel_switched", 100000);
+    { SutScope ss; vbi_channel_switched(s.dec, 0); }
+    budget_end();
+    flush();  // one frame without caption data: the reset is executed
+    for (int chn = 0; chn < 8 && !s.ctx->failed; chn++) {
+      vbi_page pg; vbi_bool ok;
+      budget_begin("vbi_fetch_cc_page", 200000);
+      { SutScope ss; ok = vbi_fetch_cc_page(s.dec, &pg, chn + 1, TRUE); }
+      budget_end();
+      if (!ok) { s.ctx->fail("oracle:fetch-failed", "vbi_fetch_cc_page(%d) returned FALSE", chn + 1); return; }
+      Effect x; x.chan = chn; x.what = "chsw";
+      if (!compare(chn, pg, x)) return;
+      s.have_proj[chn] = false;
+      memcpy(s.prev[chn], pg.text, sizeof s.prev[chn]);
+    }
+  }
+
   static bool is_ctrl(int b0) { int c = b0 & 0x7F; return c >= 0x10 && c <= 0x1F; }
 
   // put one pair into the slot of field f (delivering the frame under construction first when the slot is taken)
@@ -874,6 +939,8 @@ struct C08 : World {
     if (plan.knob("std625") & 1) { st.lines[0] = 22; st.lines[1] = 335; st.sliced_id = VBI_SLICED_CAPTION_625; }
     int doubling = (int)(((plan.knob("doubling") % 3) + 3) % 3);
     bool hygiene = plan.knob("hygiene", 1) != 0;
+    st.chsw_strict = plan.knob("chsw_strict", 0) != 0;
+    st.ref.orphan_strict = plan.knob("orphan_strict", 0) != 0;
     { SutScope ss;
       st.dec = vbi_decoder_new();
       vbi_event_handler_register(st.dec, VBI_EVENT_CAPTION, ev_handler, nullptr);
@@ -933,6 +1000,13 @@ struct C08 : World {
           const std::string& k = op->kind;
           bool dbl = op->arg(k == "pac" ? 2 : (k == "mid" || k == "spc" || k == "tab" || k == "bga" || k == "mode") ? 1 : 0) & 1;
           if (k == "join") { joined[t] = true; continue; }
+          if (k == "chsw") {
+            channel_switch();
+            for (int i = 0; i < 8; i++) joined[i] = true;
+            for (int i = 0; i < 2; i++) st.sender[i] = -1;
+            sched.yield();
+            continue;
+          }
           if (k == "idle") {
             int n = (int)(((op->arg(0) % 8) + 8) % 8);
             for (int i = 0; i < n && !ctx.failed; i++) {  // the channel keeps its field but sends fillers
